@@ -200,7 +200,11 @@ fn queue_file_blocks(
             let sparse_map = merge_extents(extents)?;
             let mut queued = 0;
             for ext in sparse_map {
-                queued += queue_file_range(&harc, ext.into(), pool, status_channel, failed)?;
+                // Extents are reported in whole filesystem blocks;
+                // the last one may reach past the end of the file.
+                let range: Range<u64> = ext.into();
+                let range = cmp::min(range.start, len)..cmp::min(range.end, len);
+                queued += queue_file_range(&harc, range, pool, status_channel, failed)?;
             }
             queued
         } else {
